@@ -6,7 +6,7 @@ From Coq Require Import List Arith Bool NArith Lia.
 Import ListNotations.
 Require Import Laze.model.Base Laze.model.Env Laze.model.Expand Laze.model.Path Laze.model.Hash Laze.model.Allow
                Laze.model.Ninja Laze.model.Ctx Laze.model.Resolver Laze.model.Imports Laze.model.Generate.
-Require Import Laze.proofs.BaseFacts Laze.proofs.StmtFacts Laze.proofs.GenerateFacts Laze.proofs.WfFacts Laze.proofs.CacheNarrow.
+Require Import Laze.proofs.PathFacts Laze.proofs.BaseFacts Laze.proofs.StmtFacts Laze.proofs.GenerateFacts Laze.proofs.WfFacts Laze.proofs.CacheNarrow.
 Open Scope list_scope.
 
 Section Out.
@@ -64,19 +64,24 @@ Qed.
 Lemma extends_trans (a b c : str) : (exists r, b = a ++ r) -> (exists r, c = b ++ r) -> exists r, c = a ++ r.
 Proof. intros [r1 ->] [r2 ->]. exists (r1 ++ r2). rewrite app_assoc. reflexivity. Qed.
 
-(* objects: below <build-dir>/objects for a relative source path and relative builder / app names *)
+(* objects: below <build-dir>/objects for EVERY source path (an absolute one is made relative before
+   it is pushed: rel_root) and relative builder / app names *)
 Theorem object_under_build_dir build_dir bn an shareable src h rout :
-  is_absolute (with_extension src (object_ext shareable h rout)) = false ->
   is_absolute bn = false -> is_absolute an = false ->
   exists rest, object_path (path_push build_dir (S_ "objects")) bn an shareable src h rout = build_dir ++ rest.
 Proof.
-  intros Hs Hb Ha. unfold object_path.
+  intros Hb Ha. unfold object_path.
   apply (extends_trans build_dir (path_push build_dir (S_ "objects"))); [apply path_push_extends; reflexivity|].
   destruct shareable.
-  - apply path_push_extends, Hs.
+  - apply path_push_extends, rel_root_relative.
   - eapply extends_trans; [apply (path_push_extends _ bn Hb)|].
-    eapply extends_trans; [apply (path_push_extends _ an Ha)|]. apply path_push_extends, Hs.
+    eapply extends_trans; [apply (path_push_extends _ an Ha)|]. apply path_push_extends, rel_root_relative.
 Qed.
+
+(* a non-shareable object lies below <objdir>/<builder>/<app>, whatever the source path *)
+Theorem nonshareable_under_builder_app objdir bn an src h rout :
+  exists rest, object_path objdir bn an false src h rout = path_push (path_push objdir bn) an ++ rest.
+Proof. unfold object_path. apply path_push_extends, rel_root_relative. Qed.
 
 (* download directories and tag files: below <build-dir>/dl for relative dldir / relpath / name *)
 Theorem download_under_build_dir build_dir d relpath name :
